@@ -25,6 +25,9 @@ T = {
     "fault": (8, "fault", "Mov"), "invalid": (1, "nofetch", None), "hlt": (1, "nofetch", None),
     # software interrupts behave like syscall: they complete iff a hook is registered for their mnemonic
     "int80": (2, "syscall", "Int"), "int3": (1, "syscall", "Int3"), "int1": (1, "syscall", "Int1"),
+    # explicit stack traffic: the record of calls and the stack pointer go out of step (a return address popped by hand,
+    # a return to a pushed address)
+    "push_rax": (1, "push", "Push"), "pop_rax": (1, "pop", "Pop"), "pop_rcx": (1, "pop", "Pop"),
 }
 
 
@@ -93,6 +96,9 @@ class Program:
         if t == "int80": return b"\xcd\x80"
         if t == "int3": return b"\xcc"
         if t == "int1": return b"\xf1"
+        if t == "push_rax": return b"\x50"
+        if t == "pop_rax": return b"\x58"
+        if t == "pop_rcx": return b"\x59"
         raise ValueError(t)
 
 
@@ -143,6 +149,12 @@ def random_program(rng, n, allow=("plain", "jmp", "jcc", "call", "ret"), fault_p
                 insns.append({"t": "call32", "tgt": tgt})
         elif kind == "ret":
             insns.append({"t": "ret"})
+        elif kind == "pop":
+            insns.append({"t": rng.choice(["pop_rax", "pop_rcx"])})
+        elif kind == "push":
+            if rng.random() < 0.5:
+                insns.append({"t": "mov_rax", "imm": 0, "_fix": tgt})      # push <address of an instruction> (... ; ret)
+            insns.append({"t": "push_rax"})
     n2 = len(insns)
     for ins in insns:
         if "tgt" in ins:
@@ -191,7 +203,7 @@ def fl_bits(fl, regs):
 
 
 VAR = {0: "call", 1: "ret", 2: "jump"}
-BLANK_ANN = {"kind": "none", "ip": 0, "next": 0, "target": 0, "cc": "", "mnem": ""}
+BLANK_ANN = {"kind": "none", "ip": 0, "next": 0, "target": 0, "cc": "", "mnem": "", "sh": 0}
 BLANK_FL = {"cf": 0, "pf": 0, "zf": 0, "sf": 0, "of": 0, "rcxz": 0, "ecxz": 0}
 BLANK_HOOK = {"hid": -1, "when": "", "mnem": "", "ret": "", "stop": False}
 
@@ -226,7 +238,9 @@ def project(scenarios, events, rep, refs=None):
         prog = sc["_prog"]
         acts = sc["actions"]
         evs = by[sid]
-        shadow = []       # tracer's own return-address stack
+        shadow = []       # tracer's own stack of the values pushed by CALL / PUSH (None = not a model-sized address)
+        lost = False      # a RET / POP went above the initial stack level: what it reads is not known to the tracer
+        stack_top = None  # RSP as init_stack left it
         stack_ranges = []  # [start, end) of memory the program may use as stack
         hasstack = False
         pattern = sc.get("_ret_pattern")
@@ -254,6 +268,7 @@ def project(scenarios, events, rep, refs=None):
                 hasstack = True
                 shadow = []
                 stack_ranges.append((r["v"], r["v"] + a["len"]))
+                stack_top = e.get("obs", {}).get("regs", {}).get("RSP")
             if e["ev"] == "mem_init_area" and k == "ok":
                 stack_ranges.append((a["start"], a["start"] + len(a["data"])))
             if e["ev"] == "hook":
@@ -268,7 +283,7 @@ def project(scenarios, events, rep, refs=None):
                 if ent is None or not executable:
                     ann = dict(BLANK_ANN, kind="nofetch", ip=mi(rip), next=mi(rip))
                 else:
-                    ann = {"kind": ent["kind"], "ip": ent["ip"], "next": ent["next"], "target": ent["target"], "cc": ent["cc"], "mnem": ent["mnem"]}
+                    ann = {"kind": ent["kind"], "ip": ent["ip"], "next": ent["next"], "target": ent["target"], "cc": ent["cc"], "mnem": ent["mnem"], "sh": 0}
                     if ent["t"] in ("call_rax", "jmp_rax"):
                         ann["target"] = mi(pre["regs"]["RAX"])
                     if ent["kind"] == "ret":
@@ -276,13 +291,27 @@ def project(scenarios, events, rep, refs=None):
                             ann["target"] = shadow[-1]
                         elif pattern is not None:
                             ann["target"] = pattern
-                # a CALL / RET whose stack slot is not mapped faults (slot per hardware [rsp-8 | rsp] or per ax's
-                # convention [rsp | rsp+8]: both must lie in a known stack range for the access to be judged possible)
+                # stack height in slots above the level init_stack left (0 = "the stack is empty")
+                if hasstack and stack_top is not None:
+                    d = stack_top - pre["regs"]["RSP"]
+                    ann["sh"] = 0 if d == 0 else (d // 8 if d > 0 and d % 8 == 0 and d < (1 << 20) else -1)
+                # a CALL / PUSH / RET / POP whose stack slot is not mapped faults.  The slot is [rsp-8, rsp) / [rsp, rsp+8) on
+                # hardware and [rsp, rsp+8) / [rsp+8, rsp+16) under ax's documented convention (KNOWN_FINDINGS C04): unmapped
+                # under both => fault; mapped under exactly one => not judged; a top-level RET reads nothing.
                 rsp = pre["regs"]["RSP"]
-                if ann["kind"] == "call" and not any(lo <= rsp - 8 and rsp + 8 <= hi for lo, hi in stack_ranges):
-                    ann["kind"] = "fault"
-                if ann["kind"] == "ret" and not any(lo <= rsp and rsp + 16 <= hi for lo, hi in stack_ranges):
-                    ann["kind"] = "fault"
+                inside = lambda a0: any(lo <= a0 and a0 + 8 <= hi for lo, hi in stack_ranges)
+                toplevel = ann["kind"] == "ret" and hasstack and ann["sh"] == 0
+                if ann["kind"] in ("call", "push", "ret", "pop") and not toplevel:
+                    a_hw, a_ax = (rsp - 8, rsp) if ann["kind"] in ("call", "push") else (rsp, rsp + 8)
+                    if not inside(a_hw) and not inside(a_ax):
+                        ann["kind"] = "fault"
+                    elif inside(a_hw) != inside(a_ax):
+                        ann["kind"] = "skip"
+                        lost = True
+                if ann["kind"] in ("ret", "pop") and pattern is None and not toplevel and (lost or not shadow):
+                    # above the initial stack level: reads memory the tracer does not know
+                    lost = True
+                    ann["kind"] = "skip"
                 t["ann"] = ann
                 t["fl"] = fl_bits(pre["fl"], pre["regs"])
                 # tracer state follows the architecture: the effect happened iff the count advanced
@@ -290,7 +319,11 @@ def project(scenarios, events, rep, refs=None):
                 if ann["kind"] != "nofetch" and o.get("count") == pre["count"] + 1:
                     if ann["kind"] == "call":
                         shadow.append(ann["next"])
-                    elif ann["kind"] == "ret" and not (hasstack and not shadow) and shadow:
+                    elif ann["kind"] == "push":
+                        shadow.append(mi(pre["regs"]["RAX"]))
+                    elif ann["kind"] == "pop" and shadow:
+                        shadow.pop()
+                    elif ann["kind"] == "ret" and not (hasstack and ann["sh"] == 0) and shadow:
                         shadow.pop()
                 for h in e.get("hooklog", []):
                     inner = [x for x in h.get("inner", []) if x["op"] in ("try_register", "try_handle_syscalls")]
